@@ -138,7 +138,8 @@ static const tok_t TOK_SNAPPYX[] = { T("\x00"), T("\x04"), T("\x00\x41"), T("\x0
                                      T("\x0d"), T("\x11"), T("\x1c" "ABCDEFGH"), T("\x05\x08"), T("\x22\x08\x00"),
                                      T("\xfc\x03\x00\x00\x80"), T("\xfc\xff\xff\xff\x7f"), T("\xf8\xff\xff\xff"), T("\xf4\xff\xff") };      /* literal lengths with the top bit of the last length byte set / clear */
 static const tok_t TOK_THRIFT[] = { T("\x00"), T("\x15"), T("\x15\x02"), T("\x16\x02"), T("\x18\x01\x41"), T("\x18\xff\xff\xff\xff\x0f"), T("\x19"), T("\x19\x1c"), T("\x19\xfc\xff\xff\xff\x0f"), T("\x19\xf5\xff\xff\xff\x07"), T("\x1c"), T("\x2c"), T("\x1b"), T("\x1b\x01\x55"), T("\x1b\xff\xff\xff\xff\x0f\x88"), T("\x11"), T("\x12"),
-                                    T("\x05\x80\x80\x01"), T("\x1d"), T("\x17"), T("\x29\x1c"), T("\x49\x1c"), T("\x48\x00"), T("\x35\x00"), T("\x19\x10"), T("\x19\x00"), T("\x1a\x1b"), T("\xff"), T("\x80\x80\x80\x80\x80\x80\x80\x80\x80\x80\x01"), T("\x2c\x15\x00\x00") };
+                                    T("\x05\x80\x80\x01"), T("\x1d"), T("\x17"), T("\x29\x1c"), T("\x49\x1c"), T("\x48\x00"), T("\x35\x00"), T("\x19\x10"), T("\x19\x00"), T("\x1a\x1b"), T("\xff"), T("\x80\x80\x80\x80\x80\x80\x80\x80\x80\x80\x01"), T("\x2c\x15\x00\x00"),
+                                    T("\x68\xff\xff\xff\xff\xff\xff\xff\xff\xff\x01"), T("\x18\xff\xff\xff\xff\xff\xff\xff\xff\xff\x01"), T("\x18\xfd\xff\xff\xff\xff\xff\xff\xff\xff\x01"), T("\x18\xf5\xff\xff\xff\xff\xff\xff\xff\xff\x01"), T("\xfc") };      /* binary lengths 2^64-1, -3, -11 (ten-byte varints: position + length wraps), a struct in an unknown field */
 static const tok_t TOK_PLAIN[] = { T("\x00\x00\x00\x00"), T("\x01\x00\x00\x00"), T("\x41"), T("\xff\xff\xff\xff"), T("\xff\xff\xff\x7f"), T("\x00\x00\x00\x80"), T("\x05\x00\x00\x00"), T("\x41\x42\x43\x44\x45"), T("\x00"), T("\xff") };
 
 static void token_sequences(int d, const tok_t* al, int na, int maxlen, uint64_t salt, const char* prefix, int prefix_n) {
@@ -287,7 +288,7 @@ static void enumerate(void) {
     token_sequences(DEC_DLBA, TOK_DELTA, 18, TL, 0x8202, NULL, 0); token_sequences(DEC_DBA, TOK_DELTA, 18, TL, 0x8203, NULL, 0);
     token_sequences(DEC_SNAPPY, TOK_SNAPPYX, 29, TL, 0x8300, "\x08", 1); token_sequences(DEC_SNAPPY, TOK_SNAPPYX, 29, TL, 0x8301, NULL, 0);
     token_sequences(DEC_LZ4, TOK_LZ4X, 22, TL, 0x8400, NULL, 0);
-    token_sequences(DEC_META, TOK_THRIFT, 30, TL, 0x8500, NULL, 0); token_sequences(DEC_PAGEHDR, TOK_THRIFT, 30, TL, 0x8501, NULL, 0);
+    token_sequences(DEC_META, TOK_THRIFT, 35, TL, 0x8500, NULL, 0); token_sequences(DEC_PAGEHDR, TOK_THRIFT, 35, TL, 0x8501, NULL, 0);
     token_sequences(DEC_PLAIN, TOK_PLAIN, 10, TL, 0x8600, NULL, 0);
     token_sequences(DEC_GZIP, TOK_LZ4, 18, 2, 0x8700, "\x1f\x8b\x08\x00\x00\x00\x00\x00\x00\x03", 10); token_sequences(DEC_ZSTD, TOK_LZ4, 18, 2, 0x8701, "\x28\xb5\x2f\xfd", 4);
     /* requested counts around the decoders' internal tile and scratch sizes (1024, 4096), on inputs long enough to be decoded */
